@@ -1,10 +1,12 @@
 (* The recursion of validate_selection_set / validate_field / validate_inline_fragment /
-   validate_fragment_spread / validate_fragment_definition (validation/selection.rs, field.rs, fragment.rs) has
-   NO guard.  This is its skeleton, instrumented with the depth of nested activations of
-   validate_selection_set: a fragment spread descends into the fragment definition once per operation
-   (`validated_fragments`), and only if validate_fragment_cycles found neither a cycle nor the limit.
-   So the depth is bounded only by (fragments on one path, <= 100 by the cycle guard) x (nesting of one
-   definition, <= the parser's limit): finding selection_set_recursion_unguarded. *)
+   validate_fragment_spread / validate_fragment_definition (validation/selection.rs, field.rs, fragment.rs) AS IT
+   WAS BEFORE ITS REPAIR: no guard (the repaired code is vs_walk in Guards.v).  This is its skeleton,
+   instrumented with the depth of nested activations of validate_selection_set: a fragment spread descends
+   into the fragment definition once per operation (`validated_fragments`), and only if
+   validate_fragment_cycles found neither a cycle nor the limit.  So the depth was bounded only by
+   (fragments on one path, <= 100 by the cycle guard) x (nesting of one definition, <= the parser's limit):
+   former finding selection_set_recursion_unguarded.  Kept for the refuted witness
+   C21_selection_depth_unguarded_old_refuted; not extracted. *)
 From ApolloVerif Require Import Base.Chars Ast.Ast Valid.Guards.
 
 Section Vss.
